@@ -3,6 +3,6 @@
 # (so that the harness can be edited and rebuilt meanwhile); logs in /verif/target/thorough-logs/<ID>.log
 for id in "$@"; do
   s=$(date +%s)
-  /verif/target/thorough-bin/xmc check $id --tier thorough > /verif/target/thorough-logs/$id.log 2>&1
+  ${XMC_BIN:-/verif/target/thorough-bin}/xmc check $id --tier thorough > /verif/target/thorough-logs/$id.log 2>&1
   echo "$id rc=$? wall=$(( $(date +%s) - s ))s $(grep 'thorough tier' /verif/target/thorough-logs/$id.log | cut -c1-160)"
 done
